@@ -1,40 +1,103 @@
 // Kani harnesses for src/internal/language.rs (child module `vk`)
 use super::*;
 
-/// linear-search specification of tag(), independent of binary_search_by_key
-fn spec_tag(code: u16) -> &'static str {
-    let lang = code & 0x3ff;
-    let sub = code >> 10;
-    let mut i = 0;
-    while i < LANGUAGES.len() {
-        let (lc, lt, subs) = LANGUAGES[i];
-        if lc == lang {
-            let mut j = 0;
-            while j < subs.len() {
-                if subs[j].0 == sub {
-                    return subs[j].1;
-                }
-                j += 1;
-            }
-            return lt;
-        }
-        i += 1;
-    }
-    "und"
+pub fn stub_format(_args: core::fmt::Arguments<'_>) -> String {
+    String::new()
 }
 
 fn same_str(a: &str, b: &str) -> bool {
     a.as_ptr() == b.as_ptr() && a.len() == b.len()
 }
 
-// @harness name=lang_code_tag_total kind=Pc tier=quick props=C17,C09 desc="for every u16 code: from_code(c).code() == c; tag() returns without panicking and is exactly (same static string as) the linear-search result: sublanguage tag if listed, else the bare language tag, else 'und' (this also re-proves the sortedness binary_search_by_key relies on)"
+fn is_und(t: &str) -> bool {
+    let b = t.as_bytes();
+    b.len() == 3 && b[0] == b'u' && b[1] == b'n' && b[2] == b'd'
+}
+
+// @harness name=lang_tag_matches_table kind=Pc tier=quick props=C17,C09 desc="for every u16 code c and every table position (i, j) (symbolic indices = universally quantified): from_code(c).code() == c; tag() does not panic; if language i is c's primary language then the tag is not 'und', it is sublanguage j's tag when j is c's sublanguage, and it is the bare language tag only if no listed sublanguage j matches; if the tag is 'und' then no language i matches"
 #[kani::proof]
-#[kani::unwind(140)]
-fn lang_code_tag_total() {
+#[kani::unwind(10)]
+#[kani::stub(alloc::fmt::format, stub_format)]
+fn lang_tag_matches_table() {
     let code: u16 = kani::any();
     let lang = Language::from_code(code);
     assert!(lang.code() == code);
     let t = lang.tag();
-    let s = spec_tag(code);
-    assert!(same_str(t, s));
+    let lc = code & 0x3ff;
+    let sc = code >> 10;
+    let i: usize = kani::any();
+    kani::assume(i < LANGUAGES.len());
+    let (ilc, ilt, subs) = LANGUAGES[i];
+    if ilc == lc {
+        assert!(!is_und(t));
+        if subs.is_empty() {
+            assert!(same_str(t, ilt));
+        } else {
+            let j: usize = kani::any();
+            kani::assume(j < subs.len());
+            if subs[j].0 == sc {
+                assert!(same_str(t, subs[j].1));
+            }
+            if same_str(t, ilt) {
+                assert!(subs[j].0 != sc);
+            }
+        }
+    }
+    if is_und(t) {
+        assert!(ilc != lc);
+    }
+    kani::cover!(ilc == lc && !subs.is_empty());
+}
+
+// @harness name=lang_unknown_is_und kind=Pc tier=quick props=C17 desc="for every u16 code whose primary language is not in the table (decided by a linear scan over the 117 entries, independent of the library's binary search) tag() is 'und'; and a known primary language with an unlisted sublanguage yields exactly the bare language tag"
+#[kani::proof]
+#[kani::unwind(120)]
+#[kani::stub(alloc::fmt::format, stub_format)]
+fn lang_unknown_is_und() {
+    let code: u16 = kani::any();
+    let lc = code & 0x3ff;
+    let sc = code >> 10;
+    let mut found: usize = usize::MAX;
+    let mut i = 0;
+    while i < LANGUAGES.len() {
+        if LANGUAGES[i].0 == lc {
+            found = i;
+        }
+        i += 1;
+    }
+    let lang = Language::from_code(code);
+    let t = lang.tag();
+    if found == usize::MAX {
+        assert!(is_und(t));
+    } else {
+        let (_, ilt, subs) = LANGUAGES[found];
+        let mut listed = false;
+        let mut j = 0;
+        while j < subs.len() {
+            if subs[j].0 == sc {
+                listed = true;
+            }
+            j += 1;
+        }
+        if !listed {
+            assert!(same_str(t, ilt));
+        }
+    }
+}
+
+// @harness name=lang_wellknown_ids kind=Pc tier=quick props=C17 desc="the Windows identifiers named in the statement carry their standard tags: 1033 en-US, 2057 en-GB, 1036 fr-FR, 3084 fr-CA, 1031 de-DE, 1041 ja-JP (checked on the bytes of the returned tag)"
+#[kani::proof]
+#[kani::unwind(10)]
+#[kani::stub(alloc::fmt::format, stub_format)]
+fn lang_wellknown_ids() {
+    fn is(t: &str, e: &[u8; 5]) -> bool {
+        let b = t.as_bytes();
+        b.len() == 5 && b[0] == e[0] && b[1] == e[1] && b[2] == e[2] && b[3] == e[3] && b[4] == e[4]
+    }
+    { let l = Language::from_code(1033); assert!(is(l.tag(), b"en-US")); }
+    { let l = Language::from_code(2057); assert!(is(l.tag(), b"en-GB")); }
+    { let l = Language::from_code(1036); assert!(is(l.tag(), b"fr-FR")); }
+    { let l = Language::from_code(3084); assert!(is(l.tag(), b"fr-CA")); }
+    { let l = Language::from_code(1031); assert!(is(l.tag(), b"de-DE")); }
+    { let l = Language::from_code(1041); assert!(is(l.tag(), b"ja-JP")); }
 }
